@@ -4,6 +4,10 @@ import json, os
 ROOT = os.path.dirname(os.path.dirname(os.path.abspath(__file__)))
 
 CHECKS = {
+ 'C16': dict(level='exploration', design='DESIGN.md §5 C16',
+   technique='symbolic execution of the real AST of datetimeNew into z3 integer arithmetic (vf.symint): carry chain for all integers, one inductive step per day-adjust loop from an arbitrary state, uniqueness of the civil representation; CrossHair differential against ordinal arithmetic',
+   text='z3 decides on the current source of datetimeNew that the ms/s/min/h/month carry chain equals floor-division normal form for ALL integers, that each day-adjust loop preserves the proleptic-Gregorian day number, keeps 1<=month<=12, makes progress and exits with 1<=day<=month length from ANY state (so roll-over is right for every iteration count), and that the day number determines the date. CrossHair compares datetimeNew and the seven getters with ordinal arithmetic over one symbolic component at a time and checks (d + n ms) - d == n over a solver-indexed pool. The any-time-zone clause is not applicable to a solver (C library tz state); 8 zones are replayed concretely as a by-product.',
+   note='Partly applicable. Trusted: z3 LIA, the Gregorian month-length axiom and days_from_civil (validated against calendar/date each run), CPython datetime, CrossHair.'),
  'C11': dict(level='exploration', design='DESIGN.md §5 C11',
    technique='symbolic execution of the real AST of value_compare/value_type into z3 (vf.symex) over an algebraic datatype of values; order laws and equivalence with an independent specification decided by z3; CrossHair for the consumers',
    text='The current source of value_compare and value_type is executed symbolically over a z3 datatype of BareScript values (unbounded ints, reals and strings, containers of up to 2 elements, nesting level 1 quick / 2 thorough). z3 decides reflexivity, antisymmetry, range, transitivity, null-least, int/float-spelling independence, bool-never-equals-number, absence of host TypeErrors and equivalence with an independently written specification of the documented order, for all such values; sat models are rebuilt as Python values and replayed on the real function. CrossHair checks that the six relational operators are the sign tests of systemCompare per operand-kind pair, that arraySort yields an ordered permutation and that mathMin/mathMax return a least/greatest argument.',
